@@ -167,7 +167,14 @@ class RandomStub:
         if not all(isinstance(x, str) for x in seq):
             raise Unsupported("random.choice over non-strings")
         r, new = self.w.env.draw(self.w, "choice", lambda: e.sym_str("rchoice"))
-        e.assume(z3.Or(*[r.z == Z(x) for x in seq]))
+        member = z3.Or(*[r.z == Z(x) for x in seq])
+        if new:
+            e.assume(member)
+        elif not e.decide(member):
+            # the other run of the product drew something that is not a candidate here: this run's
+            # outcome is its own (and the other run's outcome stays unconstrained by this one)
+            r = e.sym_str("rchoice'")
+            e.assume(z3.Or(*[r.z == Z(x) for x in seq]))
         self.w.script_env("choice", r)
         return r
 
